@@ -1466,3 +1466,18 @@ V('swap-loop-decref-tuple', ['C06', 'C07'], 'benign',
             garbage.add(abs(v))
             garbage.add(w)""")],
   None, 'release through a loop over a tuple (no de-duplication)')
+
+V('levelset-crossed', 'C07', 'breaking',
+  [(B, """            if i == x:
+                newy.add(u)
+            elif i == y:
+                newx.add(u)""", """            if i == x:
+                newx.add(u)
+            elif i == y:
+                newy.add(u)""")],
+  'R-LEVELSET/wrong-level-set', 'per-level index crossed for the rewritten nodes')
+V('levelset-assign-crossed', 'C07', 'breaking',
+  [(B, """        all_levels[x] = newy
+        all_levels[y] = newx""", """        all_levels[x] = newx
+        all_levels[y] = newy""")],
+  'R-LEVELSET/wrong-level-set', 'sets stored under the other level')
